@@ -14,7 +14,7 @@
     containing '/' is a float. *)
 From Coq Require Import String ZArith QArith Bool List.
 From GT Require Import Base.UTree Model.Newick Model.NewickNum Spec.NewickSpec
-     Proofs.NewickFuel Proofs.NewickCanon Proofs.NewickRound Proofs.NewickNumC.
+     Proofs.NewickFuel Proofs.NewickCanon Proofs.NewickTheorem Proofs.NewickNumC Proofs.NewickWf.
 Import ListNotations.
 Local Close Scope Q_scope.
 Local Open Scope string_scope.
@@ -67,6 +67,14 @@ Theorem C01_fuel_irrelevant :
     parse numeric parse_num s <> POutOfFuel.
 Proof. exact parse_no_fuel. Qed.
 Print Assumptions C01_fuel_irrelevant.
+
+(** Whatever the text, a tree the reader delivers is a well-formed rooted structure: no
+    parent slot in the root, exactly one in every other node (used by C02, C13). *)
+Theorem C01_parsed_tree_wf :
+  forall (numeric : string -> bool) (parse_num : string -> option Q) (s : string) (t : utree),
+    parse numeric parse_num s = POk t -> wf t = true.
+Proof. exact parse_wf. Qed.
+Print Assumptions C01_parsed_tree_wf.
 
 (** The quantifier is not vacuous: a rooted-at-a-trifurcation tree with a multifurcation, inner
     and root names, supports with and without p-value, numeric-looking tip names, node, root
